@@ -63,6 +63,10 @@ def boundaries():
                         ([1, 1, 1, 70000], [1, 1, 1, 65536]), ([2, 1, 3, 1], [1, 1, 2, 1]), ([1, 7, 1, 1], None)):
         add("u8", dims, chunk, sb=2)
         add("i32", dims, chunk, data="ext", sb=0)
+    # thousands of chunks: the index (one node per level in this writer) passes 64 KiB and 65535 entries
+    for dims, chunk in (([2730], [1]), ([2731], [1]), ([4100], [1]), ([66000], [1]), ([64, 33], [1, 1]), ([7, 7, 7, 5], [1, 1, 1, 1]), ([9000], [2])):
+        add("u8", dims, chunk, sb=2)
+        add("i32", dims, chunk, data="seq", sb=0 if len(dims) > 1 else 3)
     return cases
 
 
